@@ -372,6 +372,7 @@ def main (args : List String) : IO Unit := do
       | "fenpos" => runG seed (fenPosOps (n 0 100) ["gen all", "gen cap", "chk", "eval"])
       | "castle" => runG seed (castleLattice (n 0 50))
       | "chk" => runG seed (checkLattice (n 0 100))
+      | "badstems" => stems.filter (fun s => !stemsOK.contains s)
       | "pairs" => pairOps (n 0 1)
       | "eval" => runG seed (evalOps (n 0 1000))
       | "search" => runG seed (searchOps (n 0 20) (n 1 30) ((rest.drop 2).map fun a => a.replace "_" " "))
